@@ -403,7 +403,9 @@ fn rand_list_arg(r: &mut Rng, tag: &str, allow_open: bool) -> (Vec<G>, T) {
         4 if !elems.is_empty() => {
             // tail bound to a list which itself has a bound tail
             let t1 = v(&format!("$Ta{}", tag)); let t2 = v(&format!("$Tb{}", tag));
-            (vec![G::Unify(t2.clone(), list(vec![atom("z")])), G::Unify(t1.clone(), mk_list(elems[1..].to_vec(), Some(t2)))], mk_list(elems[..1].to_vec(), Some(t1)))
+            // the inner tail holds 0, 2 or 3 elements (with exactly one, a node count and an element count coincide)
+            let inner: Vec<T> = match r.below(3) { 0 => vec![], 1 => vec![atom("y"), atom("z")], _ => vec![atom("x"), atom("y"), atom("z")] };
+            (vec![G::Unify(t2.clone(), list(inner)), G::Unify(t1.clone(), mk_list(if elems.len() >= 2 { elems[1..].to_vec() } else { vec![atom("w")] }, Some(t2)))], mk_list(elems[..1].to_vec(), Some(t1)))
         }
         5 if allow_open && !elems.is_empty() => (vec![], mk_list(elems, Some(v(&format!("$Open{}", tag))))),
         _ => (vec![], list(elems)),
@@ -439,6 +441,25 @@ impl ListBips {
                         en.push(bcase(rule1(vec![v("$O")], vec![G::Append(vec![a.clone(), list(vec![b.clone()]), c.clone(), v("$O")])]), 1, None, true, "append(e1, [e2], e3, Out)"));
                     } } }
                 }
+                // Out already a partial list (open or closed pattern) of every prefix length 0-3
+                for a in small.iter().step_by(2) { for b in small.iter().step_by(3) {
+                    let ins = vec![a.clone(), list(vec![b.clone()]), atom("c")];
+                    let pats: Vec<(T, Vec<T>)> = vec![
+                        (mk_list(vec![v("$H")], Some(v("$T"))), vec![v("$H"), v("$T")]),
+                        (mk_list(vec![v("$H"), v("$I")], Some(v("$T"))), vec![v("$H"), v("$I"), v("$T")]),
+                        (mk_list(vec![v("$H"), v("$I"), v("$J")], Some(v("$T"))), vec![v("$H"), v("$I"), v("$T")]),
+                        (list(vec![v("$H"), v("$I"), v("$J")]), vec![v("$H"), v("$I"), v("$J")]),
+                        (list(vec![v("$H"), v("$I")]), vec![v("$H"), v("$I")]),
+                        (mk_list(vec![v("$H"), v("$I"), v("$J"), v("$K")], Some(v("$T"))), vec![v("$H"), v("$T")]),
+                    ];
+                    for (pat, outs) in pats {
+                        let mut args = ins.clone(); args.push(pat);
+                        let n = outs.len();
+                        en.push(bcase(rule1(outs, vec![G::Append(args)]), n, None, true, "append(e1, [e2], c, <partial list pattern>)"));
+                    }
+                    // Out bound earlier to an open list
+                    en.push(bcase(rule1(vec![v("$A"), v("$R")], vec![G::Unify(v("$O"), mk_list(vec![v("$A")], Some(v("$R")))), G::Append(vec![a.clone(), list(vec![b.clone()]), v("$O")])]), 2, None, true, "$O = [$A | $R], append(e1, [e2], $O)"));
+                } }
                 // Out bound to the right / a wrong list
                 en.push(bcase(rule1(vec![v("$W")], vec![G::Append(vec![atom("a"), list(vec![atom("b")]), list(vec![atom("a"), atom("b")])]), G::Unify(v("$W"), atom("yes"))]), 1, None, true, "Out bound to the right list"));
                 en.push(bcase(rule1(vec![v("$W")], vec![G::Append(vec![atom("a"), list(vec![atom("b")]), list(vec![atom("a"), atom("c")])]), G::Unify(v("$W"), atom("yes"))]), 1, None, true, "Out bound to a wrong list"));
@@ -454,6 +475,17 @@ impl ListBips {
                         en.push(bcase(rule1(vec![v("$O"), v("$F")], vec![G::Exclude(f.clone(), l.clone(), v("$O"))]), 2, None, true, "exclude(F, [e1, e2], Out)"));
                     }
                 } }
+                // chains of bound tail variables: [e1 | $T1], $T1 = [e2 | $T2], $T2 = list of 0 / 2 / 3 elements
+                for a in alpha.iter().step_by(3) { for inner in [vec![], vec![atom("y"), atom("z")], vec![atom("x"), atom("y"), atom("z")]] {
+                    let pre = vec![G::Unify(v("$T2"), list(inner.clone())), G::Unify(v("$T1"), mk_list(vec![a.clone()], Some(v("$T2"))))];
+                    let l = mk_list(vec![atom("e")], Some(v("$T1")));
+                    let mut b1 = pre.clone(); b1.push(G::Count(l.clone(), v("$N")));
+                    en.push(bcase(rule1(vec![v("$N")], b1), 1, None, true, "count over a chain of two bound tail variables"));
+                    let mut b2 = pre.clone(); b2.push(G::Include(T::Anon, l.clone(), v("$O")));
+                    en.push(bcase(rule1(vec![v("$O"), v("$F")], b2), 2, None, true, "include over a chain of two bound tail variables"));
+                    let mut b3 = pre.clone(); b3.push(G::Unify(v("$J"), func("join", vec![mk_list(vec![atom("e")], Some(v("$T2")))])));
+                    en.push(bcase(rule1(vec![v("$J")], b3), 1, None, true, "join over a list with a bound tail variable"));
+                } }
                 for ar in 0..5usize {
                     for name in ["noun", "noun_phrase", "n", "verb"] {
                         let t = cplx(name, (0..ar).map(|i| T::Int(i as i64)).collect());
@@ -465,7 +497,7 @@ impl ListBips {
                         }
                     }
                 }
-                let words = ["the", "cat", ",", "sat", ".", "?", "!", "a b", "7"];
+                let words = ["the", "cat", ",", "sat", ".", "?", "!", "a b", "7", "...", ".5", "x , y", "?!"];
                 for a in words { for b in words { for c in words {
                     if [",", ".", "?", "!"].contains(&a) { continue; }
                     let ts = |s: &str| if s == "7" { T::Int(7) } else { atom(s) };
@@ -494,9 +526,25 @@ impl ListBips {
                         if r.chance(1, 3) && !matches!(e, T::Var(..) | T::Anon) { let x = v(&format!("$E{}", i)); body.push(G::Unify(x.clone(), e)); args.push(x); } else { args.push(e); }
                     }
                 }
-                args.push(v("$O"));
-                body.push(G::Append(args));
-                bcase(rule1(vec![v("$O")], body), 1, None, true, "random append")
+                // Out: unbound, or an open / closed list pattern of random prefix length
+                match r.below(4) {
+                    0 => {
+                        let k = r.range(1, 4);
+                        let hs: Vec<T> = (0..k).map(|i| v(&format!("$H{}", i))).collect();
+                        let open = r.chance(2, 3);
+                        let pat = if open { mk_list(hs.clone(), Some(v("$T"))) } else { list(hs.clone()) };
+                        args.push(pat);
+                        body.push(G::Append(args));
+                        let mut outs = hs; if open { outs.push(v("$T")); }
+                        let n = outs.len();
+                        bcase(rule1(outs, body), n, None, true, "random append, Out a partial list")
+                    }
+                    _ => {
+                        args.push(v("$O"));
+                        body.push(G::Append(args));
+                        bcase(rule1(vec![v("$O")], body), 1, None, true, "random append")
+                    }
+                }
             }
             1 => { let (pre, t) = rand_list_arg(&mut r, "c", false); body.extend(pre); body.push(G::Count(t, v("$N"))); bcase(rule1(vec![v("$N")], body), 1, None, true, "random count") }
             2 | 3 => {
@@ -516,13 +564,13 @@ impl ListBips {
             }
             _ => {
                 let n = r.range(1, 6);
-                let ws = ["the", "cat", ",", "sat", ".", "?", "!", "on", "mat"];
+                let ws = ["the", "cat", ",", "sat", ".", "?", "!", "on", "mat", "...", ".5", "a ? b", "x , y", "?!", "wait ..."];
                 let mut args = vec![];
                 let mut i = 0;
                 while i < n {
-                    if r.chance(1, 4) && i + 1 < n { args.push(list(vec![atom(ws[r.below(9)]), atom(ws[r.below(9)])])); i += 2; }
-                    else if r.chance(1, 5) { let x = v(&format!("$W{}", i)); body.push(G::Unify(x.clone(), atom(ws[r.below(9)]))); args.push(x); i += 1; }
-                    else { args.push(atom(ws[r.below(9)])); i += 1; }
+                    if r.chance(1, 4) && i + 1 < n { args.push(list(vec![atom(ws[r.below(15)]), atom(ws[r.below(15)])])); i += 2; }
+                    else if r.chance(1, 5) { let x = v(&format!("$W{}", i)); body.push(G::Unify(x.clone(), atom(ws[r.below(15)]))); args.push(x); i += 1; }
+                    else { args.push(atom(ws[r.below(15)])); i += 1; }
                 }
                 body.push(G::Unify(v("$J"), func("join", args)));
                 bcase(rule1(vec![v("$J")], body), 1, None, true, "random join")
@@ -535,7 +583,7 @@ impl Workload for ListBips {
     fn total(&self) -> u64 { self.enumerated.len() as u64 + self.n_rand }
     fn rule(&self) -> String {
         let what = match self.which {
-            ListProp::C16 => "append over every pair of a 12-term element alphabet (atoms, numbers, variable, `$_`, [], [b], [[]], [b | $T], f(a), [a, b]) in four argument arrangements incl. a bound tail variable, triples in a fifth arrangement, Out bound to right / wrong lists",
+            ListProp::C16 => "append over every pair of a 12-term element alphabet (atoms, numbers, variable, `$_`, [], [b], [[]], [b | $T], f(a), [a, b]) in four argument arrangements incl. a bound tail variable, triples in a fifth arrangement, Out an open or closed partial list pattern of prefix length 1-4 (also bound beforehand), Out bound to right / wrong lists",
             ListProp::C15 => "append / include / exclude over every pair of the 12-term element alphabet; every list anywhere in every raw answer value must be well formed (term != Nil, count = 1 + next.count, tail_var only on the last node, terminator exactly (Nil, Nil, 0, false)) and equal to the reference's element sequence",
             ListProp::C17 => "count over every element pair incl. bound tails; include/exclude over every element pair x 6 filter patterns (element, `$_`, variable, f($_), [$F], [$_ | $F]) reporting the filter variable; functor over arities 0-4 x 4 names x 7 patterns (exact, prefix*, `*`, variable) in 4 forms; join over word/punctuation triples",
         };
